@@ -195,16 +195,21 @@ Theorem C15_sampling_time_program_limit :
 Proof. intros net ev p Hwf. exact (sampling_time_limit_of_wf_network net Hwf ev p). Qed.
 Print Assumptions C15_sampling_time_program_limit.
 
-(* ---- the defect of cli.common.transform_to_after_loop, in a model that compares symbols as
-   sympy does (name and assumptions): limit_seq with respect to the plain symbol n leaves the
-   solver's closed form in the integer symbol n unchanged; with the integer symbol it is 1/q *)
-Theorem C15_after_loop_symbol_refuted :
+(* ---- cli.common.transform_to_after_loop, in a model that compares symbols as sympy does (name
+   and assumptions).  Repaired rule (limit with respect to the integer symbol n, /repo 6cf1f48): the
+   sampling-time closed form of every q is mapped to 1/q.  The OLD rule (plain symbol n) left the
+   closed form unchanged — kept as a statement about the old rule only. *)
+Theorem C15_after_loop_takes_limit :
+  forall q : Qc, transform_to_after_loop_model (count_closed_form q) = LConst (1 / q)%Qc.
+Proof. exact after_loop_takes_limit. Qed.
+Print Assumptions C15_after_loop_takes_limit.
+
+Theorem C15_after_loop_symbol_old_rule_refuted :
   exists q : Qc, (0 < q)%Qc /\ (q <= 1)%Qc /\
-    transform_to_after_loop_model (count_closed_form q) = LExpr (count_closed_form q) /\
-    transform_fixed_model (count_closed_form q) = LConst (1 / q)%Qc /\
+    transform_to_after_loop_old_rule (count_closed_form q) = LExpr (count_closed_form q) /\
     geo_eval (count_closed_form q) 0 <> (1 / q)%Qc.
-Proof. exact after_loop_symbol_refuted. Qed.
-Print Assumptions C15_after_loop_symbol_refuted.
+Proof. exact after_loop_symbol_old_rule_refuted. Qed.
+Print Assumptions C15_after_loop_symbol_old_rule_refuted.
 
 (* ------------------------------------------------------------------ non-vacuity (tests by
    vm_compute, not theorems): bayesnet/repo/testcases/rain.bif *)
@@ -284,5 +289,7 @@ Example C15_nonvacuous_sampling_time :
 Proof. vm_compute. reflexivity. Qed.
 Example C15_nonvacuous_names :
   sanitize "Node-7" = "node7" /\ valid_mapping ["a-b"; "ab"; "AB"] ["ab"; "ab3"; "ab31"] = true
-  /\ valid_mapping ["a-b"; "ab"] ["ab"; "ab"] = false.
+  /\ valid_mapping ["a-b"; "ab"] ["ab"; "ab"] = false
+  /\ valid_mapping ["While"; "E"] ["while4"; "e0"] = true /\ valid_mapping ["While"] ["while"] = false
+  /\ valid_mapping_old_rule ["While"] ["while"] = true.
 Proof. vm_compute. repeat split; reflexivity. Qed.
